@@ -1,10 +1,11 @@
 From Coq Require Import ZArith NArith List Bool.
-Require Import Value Bytes GenSb2 Sb2Model Sb2Proofs.
+Require Import Value Bytes GenSb2 Sha2 Aes Modes Hmac KeyWrap Crc Sb2Model Sb2Proofs.
 Import ListNotations.
+Local Open Scope N_scope.
 
 (* C04: the container layouts the ROM model is written against (hand-written from the format description) are the
    struct formats extracted from the current source of CmdHeader, ImageHeaderV2 and CertBlockHeader. *)
 Theorem layouts_agree :
   rom_cmdhdr_layout = cmdhdr_format /\ rom_imghdr_layout = imghdr_format /\ rom_certhdr_layout = certhdr_format.
-Proof. exact layouts_agree_lemma. Qed.
+Proof. exact layouts_agree_thm. Qed.
 Print Assumptions layouts_agree.
